@@ -214,7 +214,7 @@ PROPS = {
     },
     "C09": {
         "level": "proof",
-        "verus": ["c04_find_value", "c09_either_of", "c03_defaulted", "c11_json_writer", "c17_js_string"],
+        "verus": ["c04_find_value", "c09_either_of", "c03_defaulted", "c11_json_writer", "c17_js_string", "c20_datakey"],
         "kani": [KANI_RANGES, KANI_FK_ARGS],
     },
     "C11": {
